@@ -162,3 +162,40 @@ pub fn b64(args: &[String]) -> i32 {
     }
     0
 }
+
+// what the library reads from the BYTES of a patch-check response body: the same entry point as reqwest's
+// Response::json (serde_json::from_slice into PatchCheckResponse); one `name hex` line per body, answers in the
+// syntax of the model driver's `jsonbody` command
+pub fn jsonbodies(args: &[String]) -> i32 {
+    let text = std::fs::read_to_string(&args[0]).expect("file");
+    let hx = |s: &str| if s.is_empty() { "e".to_string() } else { hex::encode(s.as_bytes()) };
+    for line in text.lines() {
+        let f: Vec<&str> = line.split_whitespace().collect();
+        if f.len() != 2 {
+            continue;
+        }
+        let body = if f[1] == "e" { vec![] } else { hex::decode(f[1]).expect("hex") };
+        match serde_json::from_slice::<updater::verif::PatchCheckResponse>(&body) {
+            Err(_) => println!("jsonbody:{}=err", f[0]),
+            Ok(r) => {
+                let p = match &r.patch {
+                    None => "-".to_string(),
+                    Some(p) => format!(
+                        "{}:{}:{}:{}",
+                        p.number,
+                        hx(&p.hash),
+                        hx(&p.download_url),
+                        p.hash_signature.as_deref().map_or("-".to_string(), |s| hx(s))
+                    ),
+                };
+                let rb = match &r.rolled_back_patch_numbers {
+                    None => "-".to_string(),
+                    Some(l) if l.is_empty() => "e".to_string(),
+                    Some(l) => l.iter().map(|x| x.to_string()).collect::<Vec<_>>().join(";"),
+                };
+                println!("jsonbody:{}=a={} p={} rb={}", f[0], if r.patch_available { "t" } else { "f" }, p, rb);
+            }
+        }
+    }
+    0
+}
